@@ -254,6 +254,9 @@ impl Directive {
                             messages: messages.clone(),
                         };
                         parse_file_internal(&context)?;
+                        // directories added by .includepath inside the included file stay known here
+                        let added = context.include_paths.borrow().clone();
+                        include_paths.borrow_mut().extend(added);
                     } else {
                         bail!("wrong format for .include, expected: {} in {}", opts, point,);
                     }
